@@ -1,8 +1,9 @@
 ---------------------------- MODULE TransportMC ----------------------------
 (* Bounded instance of Transport: up to MaxMsgs messages per direction, every cut of the byte
    streams into reads, partial socket accepts at frame boundaries +-1, one flipped byte at any
-   in-flight position, a disconnect, a raw peer (message before Init, garbage instead of act
-   one); prints one driver script per reachable drained state.  Lengths are abstract: each byte
+   in-flight position, a disconnect, a raw peer (a message of any class of Classes before / after
+   Init -- the TransportMCfirst*.cfg instances enumerate every wire message type as the first
+   message --, garbage instead of act one); prints one driver script per reachable drained state.  Lengths are abstract: each byte
    of the model stands for one class of real bytes (see `grid` in harness/src/bin/transport.rs),
    so script positions are (unit index, offset in unit) and the engine maps them to real offsets. *)
 EXTENDS Transport, Json
@@ -23,7 +24,7 @@ RECURSIVE PosFrom(_, _, _, _, _)
 PosFrom(fs, k, start, u, P) ==
   IF k > Len(fs) THEN [u |-> u, o |-> 0]
   ELSE LET fr == fs[k]
-           two == fr.kind \in {"init", "msg"} IN
+           two == fr.kind \in MsgKinds IN
        IF P >= start + fr.len /\ ~(P = start + fr.len /\ k = Len(fs))
        THEN PosFrom(fs, k + 1, start + fr.len, u + (IF two THEN 2 ELSE 1), P)
        ELSE IF ~two THEN [u |-> u, o |-> P - start]
@@ -84,8 +85,9 @@ MRawSend ==
   /\ \/ CRawStart /\ Log([op |-> "pe", s |-> 1])
      \/ CRawGarbage /\ Log([op |-> "raw_garbage", n |-> 50])
      \/ CRawInit /\ Log([op |-> "raw_init"])
-     \/ /\ CRawMsg /\ Len(SelectSeq(hist, LAMBDA h : h.op = "queue" /\ h.d = RawSide)) < MaxMsgs[RawSide]
-        /\ Log([op |-> "queue", d |-> RawSide, kind |-> "custom"])
+     \/ \E c \in Classes :
+        /\ CRawMsg(c) /\ Len(SelectSeq(hist, LAMBDA h : h.op = "queue" /\ h.d = RawSide)) < MaxMsgs[RawSide]
+        /\ Log([op |-> "queue", d |-> RawSide, kind |-> c])
   /\ Same
 MRawRead ==
   /\ ~done /\ CRawRead /\ Log([op |-> "read", d |-> Other(RawSide), k |-> -1]) /\ Same
